@@ -178,6 +178,46 @@ def check_samplers(ctx, db):
     ctx.require('R-SHAPE samplers', n, 4)
 
 
+def clamp_of(i):
+    """`if (v > B) { v = B; ... }` / `if (v < B) ...` -> (variable text, bound text, 'upper'|'lower')"""
+    c = _strip_casts(i.child('cond'))
+    if c is None or c.k != 'BinaryOperator' or c.op not in ('>', '<', '>=', '<='):
+        return None
+    l, r = _strip_casts(c.child('lhs')), _strip_casts(c.child('rhs'))
+    th = i.child('then')
+    if th is None:
+        return None
+    asg = [x for x in ([th] if is_assign(th) else (th.c if th.k == 'CompoundStmt' else [])) if x is not None and is_assign(x) and x.op == '=']
+    for a in asg:
+        al, ar = _strip_casts(a.child('lhs')), _strip_casts(a.child('rhs'))
+        for v, b in ((l, r), (r, l)):
+            if v.k in ('DeclRefExpr', 'MemberExpr') and v.text() == al.text() and b.text() == ar.text():
+                up = (c.op in ('>', '>=')) == (v is l)
+                return (norm(v.text()), norm(b.text()), 'upper' if up else 'lower')
+    return None
+
+
+def check_clamp_chains(ctx, fns, rule='R-CLAMP.chain'):
+    """Two bounds of the same kind on the same variable must both be applied: the second clamp may
+    not sit in the `else` of the first (when the first fires, the second bound is skipped)."""
+    n = 0
+    for f in fns:
+        for i in f.walk():
+            if i.k != 'IfStmt':
+                continue
+            cl = clamp_of(i)
+            if cl is None:
+                continue
+            n += 1
+            ctx.touch(f)
+            par = i.parent
+            pc = clamp_of(par) if par is not None and par.k == 'IfStmt' and par.child('else') is i else None
+            bad = pc is not None and pc[0] == cl[0] and pc[2] == cl[2] and pc[1] != cl[1]
+            ctx.check(not bad, rule, '%s/%s<=%s@%s' % (f.qn.replace('gdstk::', ''), cl[0], cl[1][:30], i.loc()), i.loc(), '%s bound `%s` on `%s` is applied independently of the other bounds' % (cl[2], cl[1], cl[0]),
+                      'the %s bound `%s` on `%s` is only applied when the bound `%s` did not fire: a value exceeding both keeps the larger one' % (cl[2], cl[1], cl[0], pc[1] if pc else ''))
+    return n
+
+
 def run(ctx):
     db = ctx.db
     f = db.fn('gdstk::Curve::commands')
@@ -194,10 +234,19 @@ def run(ctx):
     check_last_ctrl(ctx, db)
     check_clamps(ctx, db)
     check_samplers(ctx, db)
+    fns = [f for f in db.functions if f.body is not None and f.relfile() in ('src/polygon.cpp', 'src/curve.cpp')]
+    n = check_clamp_chains(ctx, fns)
+    ctx.require('R-CLAMP.chain clamp statements', n, 20)
+    from ..controls import load_controls
+    cdb = load_controls()
+    for name, expect in (('ctl_clamp_chain', True), ('ctl_clamp_chain_ok', False), ('ctl_clamp_range_ok', False)):
+        sub = ctx.sub(cdb)
+        check_clamp_chains(sub, [cdb.fn('controls::' + name)])
+        ctx.control('%s (R-CLAMP.chain %s)' % (name, 'fires' if expect else 'silent'), bool(sub.violations('R-CLAMP.chain')) == expect)
 
 
 MANIFEST = dict(
-    text='Decides structural necessary conditions for curve sections: Curve::commands consumes exactly the operands its guard and advance constants state and agrees letter-by-letter with RobustPath::commands; every section method stores last_ctrl on every path (or delegates unconditionally), and on the relative path the stored control point is absolute (dependence closure reaches the current end point / absolute control polygon); every vertex count from arc_num_points that is used as a divisor is dominated by a clamp to >= 2 (or the n == 1 guard); the four adaptive samplers clamp the parameter step so the last vertex is the requested end point. Tolerance and finiteness of sampled vertices are not decided.',
+    text='Decides structural necessary conditions for curve sections: Curve::commands consumes exactly the operands its guard and advance constants state and agrees letter-by-letter with RobustPath::commands; every section method stores last_ctrl on every path (or delegates unconditionally), and on the relative path the stored control point is absolute (dependence closure reaches the current end point / absolute control polygon); every vertex count from arc_num_points that is used as a divisor is dominated by a clamp to >= 2 (or the n == 1 guard); the four adaptive samplers clamp the parameter step so the last vertex is the requested end point; two bounds of the same direction on one variable (fillet radius vs both adjacent edges) are applied independently, never else-chained. Tolerance and finiteness of sampled vertices are not decided.',
     note='Trusted: clang front end, gx, sa rules. `parametric` is exempt from the last_ctrl rule (stated reason in the checker).',
-    technique='operand-consumption tables + must-write dataflow over the CFG + dependence closure + clamp dominance',
+    technique='operand-consumption tables + must-write dataflow over the CFG + dependence closure + clamp dominance + clamp-chain discipline',
     design='§4 C15')
